@@ -264,7 +264,7 @@ impl Kernel {
                 self.advance(pid);
             }
             Op::Sleep { ns } => {
-                let until = self.now + ns;
+                let until = self.now.saturating_add(ns);
                 self.proc_mut(pid).state = PState::Sleeping { until };
                 self.advance(pid);
             }
@@ -415,7 +415,7 @@ impl Kernel {
                         }
                     }
                 } else {
-                    let until = self.now + gap_ns;
+                    let until = self.now.saturating_add(gap_ns);
                     let c = &mut self.proc_mut(pid).cur;
                     c.phase = 0;
                     c.count += 1;
